@@ -299,6 +299,10 @@ def gen_term(rng, cfg, d, pool=None):
     if o in ('abs', 'neg'):
         return N(o, gen_term(rng, cfg, d - 1, pool))
     if o == 'div':
+        if rng.random() < 0.35:
+            # a signal-valued divisor kept away from 0: |t| + 1 (the dividend may be a constant: 2 / (|x| + 1))
+            num = C(rng.choice([1.0, 2.0])) if rng.random() < 0.3 else gen_term(rng, cfg, d - 1, pool)
+            return N('div', num, N('add', N('abs', gen_term(rng, cfg, max(d - 2, 0), pool)), C(1.0)))
         return N('div', gen_term(rng, cfg, d - 1, pool), C(rng.choice([0.5, 1.0, 2.0, 4.0])))
     safe = N('add', N('abs', gen_term(rng, cfg, d - 1, pool)), C(1.0))     # >= 1
     if o == 'exp':
